@@ -5,7 +5,7 @@ Require Import List ZArith Bool Arith Lia.
 Import ListNotations.
 Open Scope Z_scope.
 
-Inductive fault := OOB | UseUninit | UseAfterFree | NullDeref | IntOverflow.
+Inductive fault := OOB | UseUninit | UseAfterFree | NullDeref | IntOverflow | VlaBound.
 
 (* the ledger: every block handed out by malloc/calloc/realloc/strdup and not yet released *)
 Definition block_id := nat.
